@@ -117,3 +117,5 @@ def run(P, R, tier):
     from ..engines import dtype as _dt
     n_dt = _dt.check_function(P, R, "gmm:e_step", raw_params=("data",))
     R.floor("DTYPE.raw sites (gmm e_step)", n_dt, 2)
+    from ..engines import proto as _pp
+    _pp.check_pairwise_folds(P, R, ['gmm', 'utils'])
